@@ -101,6 +101,7 @@ class TypeEnv:
         self.caps = dict(caps or {})
         self.default_cap = default_cap
         self.items = {}          # name -> ('struct'|'enum', generics, text)
+        self.string_as_slice = False   # C17: a String remembers which slice of which allocation it was copied from
         self.ghost = {}          # struct name -> [(field, Ty)] appended after the real fields (rank abstraction)
         self.cache = {}
         self.generic_cache = {}
@@ -256,7 +257,7 @@ class TypeEnv:
             e = self.parse(args_s[0], sub)
             return TVec(e, self.cap_for(e))
         if name == 'String':
-            return STRTOK
+            return STRSLICE if self.string_as_slice else STRTOK
         if name == 'Ordering':
             return ORDERING
         if name == 'Option' and args_s:
